@@ -303,6 +303,47 @@ func importRules(repo string) (string, error) {
 		}
 	}
 
+	// blocking primitives inside collectSpecs (closures included): the model's goroutines block only in the
+	// read and in g.Wait(); anything else that can block makes the progress theorem inapplicable
+	blockFree := groupVar != ""
+	nLock, nWait := 0, 0
+	ast.Inspect(collect.Body, func(n ast.Node) bool {
+		switch x := n.(type) {
+		case *ast.SendStmt, *ast.SelectStmt, *ast.GoStmt:
+			blockFree = false
+		case *ast.UnaryExpr:
+			if x.Op == token.ARROW {
+				blockFree = false
+			}
+		case *ast.RangeStmt:
+			// ranging over a channel blocks; ranging over the children slice does not
+			if id, ok := x.X.(*ast.Ident); !ok || id.Name != childrenVar {
+				blockFree = false
+			}
+		case *ast.CallExpr:
+			ch := selChain(x.Fun)
+			if len(ch) == 0 {
+				return true
+			}
+			switch ch[len(ch)-1] {
+			case "Lock":
+				nLock++
+				if !irChainIs(x.Fun, pRetr, "mutex", "Lock") {
+					blockFree = false
+				}
+			case "Wait":
+				nWait++
+				if !(len(ch) == 2 && ch[0] == groupVar) {
+					blockFree = false
+				}
+			case "RLock", "Acquire", "SetLimit", "TryGo", "Sleep", "Do", "After", "Tick", "NewTimer", "WithTimeout", "WithDeadline":
+				blockFree = false
+			}
+		}
+		return true
+	})
+	blockFree = blockFree && nLock == 1 && nWait == 1 && claimUnderMutex
+
 	// ---------------- flattenSpecs ----------------
 	var fp []string
 	for _, f := range flatten.Type.Params.List {
@@ -662,6 +703,7 @@ func importRules(repo string) (string, error) {
 	fmt.Fprintf(&sb, "  flatten_order := %s;\n", dir)
 	fmt.Fprintf(&sb, "  index_ops := [%s];\n", strings.Join(ops, "; "))
 	fmt.Fprintf(&sb, "  extract_every_import_line := %s;\n", irBool(extractAll))
+	fmt.Fprintf(&sb, "  collect_blocks_only_in_read_and_wait := %s;\n", irBool(blockFree))
 	fmt.Fprintf(&sb, "  extract_separators := [%s]%%N\n|}.\n", strings.Join(sepS, "; "))
 	return sb.String(), nil
 }
